@@ -737,6 +737,61 @@ def run(ck):
             a2.ingest_many(w["records"])
             if a1.finalize_all() != a2.finalize_all():
                 ck.corr_problem("slimmed records change the verdict (harness projection is wrong)", w["name"])
+        # ---- the same records handed over in every accepted form (one by one, a list, a tuple, a one-shot iterator, a generator
+        #      reading lazily, chunks) give the same verdicts; and traces of INDEPENDENT driver instances (each numbers its
+        #      records from 1 again) merged into one aggregator give each run the verdict it has alone, in both file orders
+        def verdict_key(agg):
+            runs, launches = agg.finalize_all()
+            return (sorted((repr(r) for r in runs)), sorted((repr(l) for l in launches)))
+        forms_checked = 0
+        for w in worlds:
+            recs = list(w["full"])
+            ref = TraceAggregator()
+            for r in recs:
+                ref.ingest(r)
+            want = verdict_key(ref)
+            forms = {"list": lambda: recs, "tuple": lambda: tuple(recs), "iterator": lambda: iter(recs), "generator": lambda: (r for r in recs),
+                     "lazy-json-lines": lambda: (json.loads(l) for l in [json.dumps(r) for r in recs])}
+            for fname, mk in forms.items():
+                a = TraceAggregator()
+                a.ingest_many(mk())
+                forms_checked += 1
+                if verdict_key(a) != want:
+                    ck.fail_input("C13:ingest_many-form-changes-verdict:" + fname,
+                                  "world %s (%d records): ingest_many(<%s>) gives other verdicts than ingesting the same records one by one" % (w["name"], len(recs), fname),
+                                  {"kind": "ingest-form", "form": fname, "world": w["name"], "records": recs[:60]})
+                    break
+            a = TraceAggregator()
+            for i in range(0, len(recs), 3):
+                a.ingest_many(r for r in recs[i:i + 3])
+            if verdict_key(a) != want:
+                ck.fail_input("C13:ingest_many-form-changes-verdict:chunks", "world %s: chunked generators give other verdicts" % w["name"],
+                              {"kind": "ingest-form", "form": "chunks", "world": w["name"], "records": recs[:60]})
+        for i in range(len(worlds) - 1):
+            wa, wb = worlds[i], worlds[i + 1]
+            ra, rb = list(wa["full"]), list(wb["full"])
+            ids_a = {run_id_of(r) for r in ra} - {None}
+            ids_b = {run_id_of(r) for r in rb} - {None}
+            if ids_a & ids_b:
+                continue
+            alone = {}
+            for recs in (ra, rb):
+                ag = TraceAggregator()
+                ag.ingest_many(recs)
+                for rid in {run_id_of(r) for r in recs} - {None}:
+                    alone[rid] = repr(ag.finalize_run(rid))
+            for order, recs in (("a then b", ra + rb), ("b then a", rb + ra)):
+                ag = TraceAggregator()
+                ag.ingest_many(recs)
+                forms_checked += 1
+                bad = [rid for rid in sorted(alone) if repr(ag.finalize_run(rid)) != alone[rid]]
+                if bad:
+                    ck.fail_input("C13:merged-independent-traces-change-a-run-verdict",
+                                  "traces of two independent launches (own driver each: worlds %s, %s) ingested %s into one aggregator: run %s gets %s, alone it gets %s"
+                                  % (wa["name"], wb["name"], order, bad[0][:12], repr(ag.finalize_run(bad[0]))[:200], alone[bad[0]][:200]),
+                                  {"kind": "merged-traces", "order": order, "worlds": [wa["name"], wb["name"]], "records": recs[:80]})
+                    break
+        stats["ingest_forms_and_merges"] = forms_checked
         ck.notes["worlds"] = {"count": len(worlds), "by_kind": shapes,
                               "trace_lengths": sorted(len(w["records"]) for w in worlds),
                               "outcomes": [w["shape"] for w in worlds][:12]}
@@ -943,6 +998,17 @@ def replay(obj):
         else:
             print("finalize_launch:", agg.finalize_launch(*r["launch"]))
         print("documented:", r["documented"])
+        return 0
+    if r["kind"] in ("ingest-form", "merged-traces"):
+        from semantiva.trace.aggregation.aggregator import TraceAggregator
+        recs = r["records"]
+        one, many = TraceAggregator(), TraceAggregator()
+        for x in recs:
+            one.ingest(x)
+        many.ingest_many(x for x in recs)
+        print("stored records (first %d): record by record ->" % len(recs), one.finalize_all()[0][:3])
+        print("ingest_many(generator)            ->", many.finalize_all()[0][:3])
+        print("(%s)" % json.dumps({k: v for k, v in r.items() if k != "records"}))
         return 0
     outs = impl_exec([tuple(o) for o in r["ops"]])
     for v in outs:
